@@ -83,6 +83,20 @@ fn build_file(c: &Value, variant: u32, with_comments: bool) -> (SlurmFile, Paylo
     (SlurmFile::new(filters, assertions), item)
 }
 
+/// The same file grown the way the specification builds it: an empty file, then one filter / assertion at a time through the
+/// public fields (the file's format version stays what `new` chose for the empty file).
+fn grow_file(c: &Value, variant: u32) -> (SlurmFile, Payload) {
+    let (full, item) = build_file(c, variant, false);
+    let mut file = SlurmFile::new(ValidationOutputFilters::new(Vec::new(), Vec::new()), LocallyAddedAssertions::new(Vec::new(), Vec::new()));
+    for f in full.filters.prefix.iter() { file.filters.prefix.push(f.clone()); }
+    for f in full.filters.bgpsec.iter() { file.filters.bgpsec.push(f.clone()); }
+    if let Some(af) = full.filters.aspa.as_ref() {
+        for f in af { file.filters.aspa.get_or_insert_with(Vec::new).push(f.clone()); }
+    }
+    file.assertions = full.assertions.clone();
+    (file, item)
+}
+
 pub fn replay(args: &[String]) {
     let cases = read_cases(&args[0]);
     let mut s = Summary::new();
@@ -97,6 +111,11 @@ pub fn replay(args: &[String]) {
                     let kind = c["item"]["kind"].as_str().unwrap();
                     return Err((format!("drop:{kind}:{}", if exp { "missed" } else { "spurious" }),
                                 format!("drop_payload = {got}, specification {exp}")));
+                }
+                let (grown, _) = grow_file(c, variant);
+                if grown.drop_payload(&item) != exp {
+                    let kind = c["item"]["kind"].as_str().unwrap();
+                    return Err((format!("drop:{kind}:grown"), format!("the same filters added one at a time through the public fields: drop_payload = {}, specification {exp}", !exp)));
                 }
                 // JSON round trip (compact and pretty)
                 for text in [file.to_string(), file.to_string_pretty()] {
